@@ -26,6 +26,8 @@ import (
 	"verif/sim"
 )
 
+var outRoot string
+
 type finding struct {
 	Property  string `json:"property"`
 	Signature string `json:"signature"`
@@ -49,7 +51,12 @@ func main() {
 	workers := flag.Int("workers", 0, "worker count")
 	out := flag.String("out", "", "worker output")
 	replay := flag.String("replay", "", "replay file")
+	outdir := flag.String("outdir", "", "where evidence/ and replays/ are written (default: the verif root)")
 	flag.Parse()
+	if *outdir == "" {
+		*outdir = *verif
+	}
+	outRoot = *outdir
 
 	ck := checks.Registry[*prop]
 	if ck == nil {
@@ -111,7 +118,7 @@ func writeJSON(path string, v interface{}) {
 
 func parent(ck *checks.Check, tier string, seed int64, verif, scratch string) int {
 	start := time.Now()
-	if old, _ := filepath.Glob(filepath.Join(verif, "replays", ck.ID+"-*.json")); len(old) > 0 {
+	if old, _ := filepath.Glob(filepath.Join(outRoot, "replays", ck.ID+"-*.json")); len(old) > 0 {
 		for _, f := range old {
 			os.Remove(f) // replay files describe the run that wrote them
 		}
@@ -261,7 +268,7 @@ func parent(ck *checks.Check, tier string, seed int64, verif, scratch string) in
 	for _, sig := range newOrder {
 		v := newBySig[sig]
 		nviol++
-		rp := filepath.Join(verif, "replays", fmt.Sprintf("%s-seed%d-unit%d.json", ck.ID, seed, v.Index))
+		rp := filepath.Join(outRoot, "replays", fmt.Sprintf("%s-seed%d-unit%d.json", ck.ID, seed, v.Index))
 		writeJSONIndent(rp, map[string]interface{}{"property": ck.ID, "tier": tier, "seed": seed, "unit": v.Index, "signature": v.Sig,
 			"message": v.Msg, "step": v.Step, "config": json.RawMessage(orNull(v.Cfg)), "history": v.History, "detail": v.Detail})
 		fmt.Printf("VIOLATION property=%s replay=%s\n", ck.ID, rp)
@@ -302,7 +309,7 @@ func parent(ck *checks.Check, tier string, seed int64, verif, scratch string) in
 		"property_id": ck.ID, "tier": tier, "seed": seed, "level": ck.Level, "coverage": cov,
 		"assumptions": ck.Assumptions, "wall_s": wall, "violations": nviol,
 	}
-	writeJSONIndent(filepath.Join(verif, "evidence", ck.ID+".json"), ev)
+	writeJSONIndent(filepath.Join(outRoot, "evidence", ck.ID+".json"), ev)
 
 	fmt.Printf("%s %s seed=%d: %d evaluations, %d distinct signatures, %d new violations, %d known findings, %.1fs\n",
 		ck.ID, tier, seed, total.Evaluations, len(total.Sigs), nviol, len(knownSeen), wall)
